@@ -12,6 +12,8 @@ def Term (c : Char) : Prop := c = ',' ∨ c = ')' ∨ c = ';' ∨ c = ':'
 
 def Printable (c : Char) : Prop := 32 ≤ c.toNat ∧ c.toNat ≤ 126
 
+instance : DecidablePred Printable := fun c => by unfold Printable; infer_instance
+
 /-! ### stage 1 on the pieces the writer emits -/
 theorem lexRun_cons (σ : LexSt) (c : Char) (cs : List Char) :
     lexRun σ (c :: cs) = (lexStep σ c).2 ++ lexRun (lexStep σ c).1 cs := rfl
@@ -315,7 +317,21 @@ theorem mRun_quoted (R : List Raw) (hR : QOK R) (c : Char) (hc : Term c) (X : Li
   cases mRun {} X <;> simp
 
 /-! ### names -/
-def GoodName (n : List Char) : Prop := n ≠ [] ∧ n.head? ≠ some '\'' ∧ ∀ x ∈ n, Printable x
+/-- the strings `parse_string` compares tokens with -/
+def isPunTokChar (c : Char) : Bool := c = '(' || c = ')' || c = ',' || c = ':' || c = ';'
+
+/-- a label that is not one of the punctuation strings -/
+def notPunLab (s : List Char) : Bool :=
+  match s with
+  | [c] => !isPunTokChar c && c != '['
+  | _ => true
+
+/-- names the writer / tokeniser / parser triple handles: non-empty printable ASCII, not beginning
+with a single quote (known finding C09-newick-leading-quote-name), and not consisting of a single
+punctuation character `( ) , : ; [` (a quoted label that equals a punctuation string is taken for
+the punctuation by `parse_string`; known finding C09-newick-punctuation-name) -/
+def GoodName (n : List Char) : Prop :=
+  n ≠ [] ∧ n.head? ≠ some '\'' ∧ (∀ x ∈ n, Printable x) ∧ notPunLab n = true
 
 theorem printable_ne_nl {x : Char} (h : Printable x) : x ≠ '\n' := by
   rintro rfl; exact absurd h.1 (by decide)
@@ -406,7 +422,7 @@ theorem startsEndsQuote_false {n : List Char} (h : n.head? ≠ some '\'') : star
 /-- the escaped name followed by a terminator is read back as the name -/
 theorem run_label (n : List Char) (hn : GoodName n) (c : Char) (hc : Term c) (rest : List Char) :
     run (escapeName n ++ c :: rest) = (run rest).map (fun ts => STok.lab n :: STok.pun c :: ts) := by
-  obtain ⟨hne, hhead, hpr⟩ := hn
+  obtain ⟨hne, hhead, hpr, _⟩ := hn
   unfold escapeName
   rw [startsEndsQuote_false hhead]
   simp only [Bool.false_eq_true, if_false]
@@ -596,11 +612,33 @@ theorem tokenise_newickStrW {K : Type} (sh : K → List Char) (hsh : GoodShow sh
   simp [newickToks, sTokW, sTok]
 
 /-! ### back to the tree -/
-theorem retok_name {K : Type} (rd : List Char → Option K) (sh : K → List Char) (n : String) (X : List STok) :
+theorem punTok_none_of {K : Type} (c : Char) (h : isPunTokChar c = false) : punTok (K := K) c = none := by
+  simp only [isPunTokChar, Bool.or_eq_false_iff, decide_eq_false_iff_not] at h
+  obtain ⟨⟨⟨⟨a1, a2⟩, a3⟩, a4⟩, a5⟩ := h
+  simp [punTok, a1, a2, a3, a4, a5]
+
+/-- eager classification of an unambiguous token stream (proof device; `plazy` is the model) -/
+def retok {K : Type} (rd : List Char → Option K) : Bool → List STok → Option (List (Tok K))
+  | _, [] => some []
+  | true, .lab s :: rest =>
+    match rd s with
+    | none => none
+    | some k => (retok rd false rest).map (Tok.num k :: ·)
+  | true, .pun _ :: _ => none
+  | false, .lab s :: rest =>
+    if notPunLab s then (retok rd false rest).map (Tok.label (String.ofList s) :: ·) else none
+  | false, .pun c :: rest =>
+    match punTok (K := K) c with
+    | none => none
+    | some t => (retok rd (c == ':') rest).map (t :: ·)
+
+theorem retok_name {K : Type} (rd : List Char → Option K) (sh : K → List Char) (n : String)
+    (hn : n = "" ∨ GoodName n.toList) (X : List STok) :
     retok rd false ((nameToks (K := K) n).map (sTokW sh) ++ X) = (retok rd false X).map (nameToks n ++ ·) := by
   by_cases h : n = ""
   · simp [nameToks, h]
-  · simp [nameToks, h, sTokW, sTok, retok, String.ofList_toList]
+  · have hg : GoodName n.toList := by rcases hn with h' | h'; exact absurd h' h; exact h'
+    simp [nameToks, h, sTokW, sTok, retok, String.ofList_toList, hg.2.2.2]
 
 theorem retok_len {K : Type} (rd : List Char → Option K) (sh : K → List Char) (hrd : ∀ k, rd (sh k) = some k)
     (l : Option K) (X : List STok) :
@@ -617,52 +655,136 @@ theorem retok_len {K : Type} (rd : List Char → Option K) (sh : K → List Char
 
 mutual
 theorem retok_toks {K : Type} (rd : List Char → Option K) (sh : K → List Char) (hrd : ∀ k, rd (sh k) = some k) :
-    ∀ (t : PTree K) (X : List STok),
+    ∀ (t : PTree K), GoodTree t → ∀ (X : List STok),
     retok rd false ((toks true t).map (sTokW sh) ++ X) = (retok rd false X).map (toks true t ++ ·)
-  | .node n l [], X => by
+  | .node n l [], hg, X => by
     simp only [toks, List.map_append, List.append_assoc]
-    rw [retok_name, retok_len rd sh hrd]
+    rw [retok_name rd sh n hg.1, retok_len rd sh hrd]
     cases retok rd false X <;> simp
-  | .node n l (c :: cs), X => by
+  | .node n l (c :: cs), hg, X => by
     simp only [toks, List.map_cons, List.map_append, List.cons_append, List.append_assoc, sTokW, sTok, retok]
     rw [show punTok (K := K) '(' = some Tok.lp from rfl]
     simp only [show (('(' : Char) == ':') = false from rfl]
-    rw [retok_toks rd sh hrd c, retok_tail rd sh hrd cs, retok_name, retok_len rd sh hrd]
+    rw [retok_toks rd sh hrd c hg.2.1, retok_tail rd sh hrd cs hg.2.2, retok_name rd sh n hg.1, retok_len rd sh hrd]
     cases retok rd false X <;> simp
 termination_by t => sizeOf t
 decreasing_by all_goals (simp_wf; omega)
 theorem retok_tail {K : Type} (rd : List Char → Option K) (sh : K → List Char) (hrd : ∀ k, rd (sh k) = some k) :
-    ∀ (cs : List (PTree K)) (X : List STok),
+    ∀ (cs : List (PTree K)), GoodTreeL cs → ∀ (X : List STok),
     retok rd false ((toksTail true cs).map (sTokW sh) ++ X) = (retok rd false X).map (toksTail true cs ++ ·)
-  | [], X => by
+  | [], _, X => by
     simp only [toksTail, List.map_cons, List.map_nil, sTokW, sTok, List.cons_append, List.nil_append, retok]
     rw [show punTok (K := K) ')' = some Tok.rp from rfl]
     simp only [show ((')' : Char) == ':') = false from rfl]
-  | c :: cs, X => by
+  | c :: cs, hg, X => by
     simp only [toksTail, List.map_cons, List.map_append, sTokW, sTok, List.cons_append, List.append_assoc, retok]
     rw [show punTok (K := K) ',' = some Tok.comma from rfl]
     simp only [show ((',' : Char) == ':') = false from rfl]
-    rw [retok_toks rd sh hrd c, retok_tail rd sh hrd cs]
+    rw [retok_toks rd sh hrd c hg.1, retok_tail rd sh hrd cs hg.2]
     cases retok rd false X <;> simp
 termination_by cs => sizeOf cs
 decreasing_by all_goals (simp_wf; omega)
 end
 
+theorem mRunP_of_mRun : ∀ (rs : List Raw) (σ : MSt) (ts : List STok), mRun σ rs = some ts →
+    mRunP σ rs = (ts, true)
+  | [], σ, ts, h => by simp only [mRun] at h; simp [mRunP, h]
+  | r :: rs, σ, ts, h => by
+    simp only [mRun] at h
+    cases hs : mStep σ r with
+    | none => simp [hs] at h
+    | some p =>
+      obtain ⟨σ', o⟩ := p
+      simp only [hs] at h
+      cases hr : mRun σ' rs with
+      | none => simp [hr] at h
+      | some ts' =>
+        simp only [hr, Option.map_some, Option.some.injEq] at h
+        subst h
+        simp [mRunP, hs, mRunP_of_mRun rs σ' ts' hr]
+
+theorem classify_name {K : Type} (rd : List Char → Option K) (s : List Char) (hp : notPunLab s = true) :
+    classify rd false (STok.lab s) = some (Tok.label (String.ofList s), false) := by
+  match s, hp with
+  | [], _ => rfl
+  | [c], hp =>
+    simp only [notPunLab, Bool.and_eq_true, Bool.not_eq_true', bne_iff_ne, ne_eq] at hp
+    simp [classify, punTok_none_of c hp.1, hp.2]
+  | _ :: _ :: _, _ => rfl
+
+theorem plazy_cons {K : Type} (rd : List Char → Option K) (σ : PState K) (ac : Bool) (tok : STok) (ts : List STok)
+    (t : Tok K) (ac' : Bool) (toks' : List (Tok K)) (hc : classify rd ac tok = some (t, ac'))
+    (ih : ∀ σ', plazy rd σ' ac' ts true = prun σ' toks') :
+    plazy rd σ ac (tok :: ts) true = prun σ (t :: toks') := by
+  simp only [plazy, hc, prun]
+  cases pstep σ (some t) with
+  | cont σ' => exact ih σ'
+  | done r => rfl
+  | err => rfl
+
+/-- on an unambiguous, completely tokenised text the lazy pipeline is the parser on the classified tokens -/
+theorem plazy_of_retok {K : Type} (rd : List Char → Option K) : ∀ (ts : List STok) (σ : PState K) (ac : Bool)
+    (toks : List (Tok K)), retok rd ac ts = some toks → plazy rd σ ac ts true = prun σ toks
+  | [], σ, ac, toks, h => by
+    simp only [retok, Option.some.injEq] at h; subst h
+    simp only [plazy, prun, if_true]
+    cases pstep σ none <;> rfl
+  | .lab s :: ts, σ, true, toks, h => by
+    simp only [retok] at h
+    cases hr : rd s with
+    | none => simp [hr] at h
+    | some k =>
+      simp only [hr] at h
+      cases ht : retok rd false ts with
+      | none => simp [ht] at h
+      | some toks' =>
+        simp only [ht, Option.map_some, Option.some.injEq] at h; subst h
+        exact plazy_cons rd σ true _ ts (Tok.num k) false toks' (by simp [classify, hr])
+          (fun σ' => plazy_of_retok rd ts σ' false toks' ht)
+  | .pun c :: ts, σ, true, toks, h => by simp [retok] at h
+  | .lab s :: ts, σ, false, toks, h => by
+    simp only [retok] at h
+    by_cases hp : notPunLab s = true
+    · simp only [hp, if_true] at h
+      cases ht : retok rd false ts with
+      | none => simp [ht] at h
+      | some toks' =>
+        simp only [ht, Option.map_some, Option.some.injEq] at h; subst h
+        exact plazy_cons rd σ false _ ts _ false toks' (classify_name rd s hp)
+          (fun σ' => plazy_of_retok rd ts σ' false toks' ht)
+    · simp [hp] at h
+  | .pun c :: ts, σ, false, toks, h => by
+    simp only [retok] at h
+    cases hc : punTok (K := K) c with
+    | none => simp [hc] at h
+    | some t =>
+      simp only [hc] at h
+      cases ht : retok rd (c == ':') ts with
+      | none => simp [ht] at h
+      | some toks' =>
+        simp only [ht, Option.map_some, Option.some.injEq] at h; subst h
+        exact plazy_cons rd σ false _ ts t (c == ':') toks' (by simp [classify, hc])
+          (fun σ' => plazy_of_retok rd ts σ' (c == ':') toks' ht)
+
 /-- STRING-LEVEL ROUND TRIP: `parse_string(get_newick(with_distances=True))` gives back the tree -/
 theorem parseString_newickStrW {K : Type} (sh : K → List Char) (rd : List Char → Option K)
     (hsh : GoodShow sh) (hrd : ∀ k, rd (sh k) = some k) (t : PTree K) (hg : GoodTree t) :
     parseString rd (newickStrW sh t) = some t := by
-  unfold parseString
-  rw [tokenise_newickStrW sh hsh t hg]
-  have h := retok_toks rd sh hrd t [STok.pun ';']
+  have htok := tokenise_newickStrW sh hsh t hg
+  have hP : tokeniseP (newickStrW sh t) = ((newickToks true t).map (sTokW sh), true) :=
+    mRunP_of_mRun _ _ _ htok
+  have h := retok_toks rd sh hrd t hg [STok.pun ';']
   have hsemi : retok rd false [STok.pun ';'] = some [Tok.semi] := by
     simp [retok, punTok]
   rw [hsemi] at h
-  have : (newickToks true t).map (sTokW sh) = (toks true t).map (sTokW sh) ++ [STok.pun ';'] := by
+  have hl : (newickToks true t).map (sTokW sh) = (toks true t).map (sTokW sh) ++ [STok.pun ';'] := by
     simp [newickToks, sTokW, sTok]
-  simp only [this, h, Option.map_some]
+  simp only [Option.map_some] at h
+  unfold parseString
+  simp only [hP]
+  rw [hl, plazy_of_retok rd _ {} false _ h]
   have := parse_newickToks true t
   rw [stripLens_true] at this
-  simpa [newickToks] using this
+  simpa [newickToks, parseToks] using this
 
 end CogentModel.Phylo
